@@ -125,3 +125,21 @@ Definition judge_tt (c : tcase) : Z :=
   (if o_cancel a || o_dtor a || o_false a || negb (p_runs_ok c) then 2
    else if negb (agrees c) then 1
    else if 0 <? mask then 8 + mask else 0).
+
+(* ---------- native one-sided timing run ----------
+   (eps, period, n, steady, calls() after the wait, invocations started, start times relative to the requested first time; ns)
+   steady:  invocation k is scheduled for first + k*period, so it must not start before first + k*period - eps;
+   normal:  each re-queue uses curTime + period with curTime >= (previous scheduled time) - eps, so invocation k must not
+            start before first + k*period - (k+1)*eps.
+   verdict: 0 ok; 2 an invocation started too early or more than n invocations; 3 fewer than n completed within the wait
+   (inconclusive: the machine was too slow) *)
+Fixpoint early_from (eps period : Z) (steady : bool) (k : Z) (ts : list Z) : bool :=
+  match ts with
+  | [] => false
+  | t :: r => (t <? k * period - (if steady then eps else (k + 1) * eps)) || early_from eps period steady (k + 1) r
+  end.
+
+Definition judge_native (c : Z * Z * Z * bool * Z * Z * list Z) : Z :=
+  let '(eps, period, n, steady, calls, k, ts) := c in
+  if early_from eps period steady 0 ts || (n <? k) || (n <? calls) then 2
+  else if (k <? n) || (calls <? n) then 3 else 0.
